@@ -159,6 +159,10 @@ func genC06(t *rapid.T) AxisCase {
 	// a second sub-handler of the device may expose the same axis code as an independent controller
 	if rapid.IntRange(0, 9).Draw(t, "secondSub") < 3 {
 		b := AxisDef{Sub: "Touchpad", Code: a.Code, Type: "cc", CC: intp((derefOr(a.CC, 50) + 40) % 120), Min: a.Min, Max: a.Max}
+		if rapid.Bool().Draw(t, "secondOwnRange") { // its own event node reports its own range for that code
+			rg2 := rapid.SampledFrom(axisRanges).Draw(t, "secondRange")
+			b.Min, b.Max = rg2.Min, rg2.Max
+		}
 		if a.CCNeg != nil && *a.CCNeg == *b.CC {
 			b.CC = intp((*b.CC + 1) % 120)
 		}
@@ -168,10 +172,12 @@ func genC06(t *rapid.T) AxisCase {
 		for i := 0; i < k; i++ {
 			pos := rapid.IntRange(0, len(steps)).Draw(t, "insertAt")
 			var r int32
-			if rapid.Bool().Draw(t, "secondInteresting") {
+			if b.Min == a.Min && b.Max == a.Max && rapid.Bool().Draw(t, "secondInteresting") {
 				r = inter[rapid.IntRange(0, len(inter)-1).Draw(t, "secondIdx")]
+			} else if rapid.IntRange(0, 3).Draw(t, "secondEnd") == 0 {
+				r = rapid.SampledFrom([]int32{b.Min, b.Max}).Draw(t, "secondEndStop")
 			} else {
-				r = int32(rapid.Int64Range(int64(a.Min), int64(a.Max)).Draw(t, "secondRaw"))
+				r = int32(rapid.Int64Range(int64(b.Min), int64(b.Max)).Draw(t, "secondRaw"))
 			}
 			steps = append(steps[:pos], append([]Step{{T: "abs", Sub: "Touchpad", Code: a.Code, Val: r}}, steps[pos:]...)...)
 		}
